@@ -942,13 +942,14 @@ def log_call(
     def logging_wrapper(*args, **kwargs):
         callargs = getcallargs(wrapped_function, *args, **kwargs)
 
-        # Remove self is it's included:
-        if "self" in callargs:
-            callargs.pop("self")
-
         # Filter arguments to log, if necessary:
         if include_args is not None:
             callargs = {k: callargs[k] for k in include_args}
+
+        # Remove self is it's included (after filtering, so that naming it in
+        # include_args does not fail with KeyError on every call):
+        if "self" in callargs:
+            callargs.pop("self")
 
         with _start_action_with_fields(action_type, callargs) as ctx:
             result = wrapped_function(*args, **kwargs)
